@@ -39,7 +39,8 @@ func main() {
 	flag.Var(&fuels, "fuel", "Func#N=<Coq nat expression>: fuel of the N-th loop of Func (overrides the default)")
 	flag.Var(&params, "param", "pkg.Func=NAME: a call of this parameterless library function becomes the Coq variable NAME of the enclosing section")
 	flag.Var(&ifaces, "iface", "Struct.field.Method=NAME: a call of this interface method on a struct field becomes a call of the Coq function parameter NAME")
-	var shapes, objects, vias, devirts, packeds, splits, effs multiFlag
+	var shapes, objects, vias, devirts, packeds, splits, effs, stdpkgs multiFlag
+	flag.Var(&stdpkgs, "stdpkg", "import path of a package of the toolchain's standard library (resolved through GOROOT/src) whose functions are translated too; roots in it are named pkgname.Func")
 	flag.Var(&effs, "eff-shape", "F: the skeleton of F is strict: the nesting of its conditions and, per statement, the calls and the reads of object fields in source order")
 	chans := flag.Bool("chan", false, "channel values are opaque handles (Z); make(chan T), close(c), <-c become calls of the parameters chan_make, chan_close, chan_recv")
 	flag.Var(&packeds, "packed", "S: values of the struct S are opaque handles (Z) built by the pure parameter S_mk and read by the pure parameters S_<field>")
@@ -49,6 +50,7 @@ func main() {
 	flag.Var(&devirts, "devirt", "I=S: values of the interface type I are pointers to the struct S; their method calls are calls of the methods of S")
 	flag.Var(&objects, "object", "S: pointers to the struct type S are object ids (Z, 0 = nil); the fields live in the heap, one array per object")
 	flag.Var(&shapes, "shape", "Func=SKELETON: the control skeleton the proofs of this tie were written for; a function with another skeleton is left out")
+	timeInt := flag.Bool("timeint", false, "time.Time values are Z (nanoseconds on one clock): t.Before(u) is t <? u, t.After(u) is u <? t, t.Equal(u) is t =? u")
 	require := flag.String("require", "", "comma separated functions that must be translated (default: all roots); the others may be left out")
 	printShapes := flag.Bool("print-shapes", false, "print Func=SKELETON for every function that would be translated and exit")
 	selfcheck := flag.String("selfcheck", "", "directory of the compiled GL library: compile the generated file with coqc and fail if it does not check")
@@ -61,7 +63,7 @@ func main() {
 	if *require != "" {
 		req = strings.Split(*require, ",")
 	}
-	text, err := translate(*repo, *pkg, strings.Split(*funcs, ","), fuels, params, ifaces, shapes, req, objects, vias, devirts, packeds, splits, effs, *chans, *printShapes)
+	text, err := translate(*repo, *pkg, strings.Split(*funcs, ","), fuels, params, ifaces, shapes, req, objects, vias, devirts, packeds, splits, effs, stdpkgs, *chans, *timeInt, *printShapes)
 	if err != nil {
 		fmt.Fprintln(os.Stderr, "go2coq:", err)
 		os.Exit(1)
